@@ -116,6 +116,8 @@ impl Coster for HCoster {
     fn cost(&self, v: &Val) -> i64 {
         let c = if self.0 { v.size as i64 } else { 0 };
         log(EvKind::Coster { val: *v, cost: c });
+        // a coster may look at the cache too (same re-entrancy as the callbacks)
+        reenter(&Some(*v));
         c
     }
 }
